@@ -1,5 +1,6 @@
 """C11 - the compiler emits exactly the instructions written."""
 from __future__ import annotations
+import itertools
 from .. import env, hyp, gen, refasm as R, render, optable as O
 from hypothesis import strategies as st
 
@@ -215,6 +216,8 @@ def check_case(case):
         except (IndexError, KeyError, TypeError, ValueError, AttributeError) as e:
             raise InvalidCase(repr(e))
         return fails
+    if case.get('check') == 'macro':
+        return check_macro(case)[0]
     if case.get('check') == 'optsrc':
         return check_optsrc(case)
     if case.get('check') == 'nest':
@@ -359,6 +362,81 @@ def task_optimised(ctx):
                      'src %r: normal %s, python -O %s' % (s_[:120], a[:60], b[:60]))
 
 
+# ---- macros: redefinition, hostile comments in the body; instructions whose operands are missing
+MACRO_BODIES = [('true', b'\x01'), ('false', b'\x00'), ('push a', None)]
+
+
+def macro_cases():
+    """-> list of (kind, source, expected bytes or None = must be rejected, or 'any' = only well-formedness)"""
+    out = []
+    T_, F_ = bytes([C['OP_TRUE']]), bytes([C['OP_FALSE']])
+    d0, d1 = '!= m [ ] { true }', '!= m [ ] { false }'
+    inv = '!m [ ]'
+    # sequential meaning: an invocation expands the latest definition that precedes it
+    for seq in itertools.product('01i', repeat=4):
+        cur, exp, ok = None, b'', True
+        for ch in seq:
+            if ch == 'i':
+                if cur is None:
+                    ok = False          # use before any definition: hoisting or rejection - not constrained
+                    break
+                exp += cur
+            else:
+                cur = T_ if ch == '0' else F_
+        if ok and 'i' in seq and ('0' in seq and '1' in seq):
+            out.append(('redefinition', ' '.join({'0': d0, '1': d1, 'i': inv}[ch] for ch in seq) + ' not', exp + bytes([C['OP_NOT']])))
+    out.append(('redefinition', '!= m [ a ] { push a } !m [ d1 ] != m [ a ] { push a dup } !m [ d2 ]', bytes([2, 1, 2, 2, C['OP_DUP']])))
+    out.append(('redefinition', 'try { != q [ ] { true } !q [ ] } except { != q [ ] { false } !q [ ] }',
+                bytes([C['OP_TRY_EXCEPT'], 0, 1, C['OP_TRUE'], 0, 1, C['OP_FALSE']])))
+    # a comment inside the body of a macro definition is disregarded
+    for body in NEST_BODIES:
+        for pos in range(3):
+            parts = ['true', 'dup']
+            parts.insert(pos, '# %s #' % body)
+            for wrap, pre, post in (('%s', b'', b''), ('if { %s } loop { not }', bytes([C['OP_IF'], 0, 2]), bytes([C['OP_LOOP'], 0, 1, C['OP_NOT']])),
+                                    ('def 3 { %s } not', bytes([C['OP_DEF'], 3, 0, 2]), bytes([C['OP_NOT']]))):
+                src = wrap % ('!= m [ ] { %s } !m [ ]' % ' '.join(parts))
+                out.append(('comment-in-macro-body', src, pre + bytes([C['OP_TRUE'], C['OP_DUP']]) + post))
+    # instructions written without (all of) their operands cannot be encoded
+    for frag in ('swap', 'swap d1', 'check_multisig', 'cms x00', 'cms x00 d1', 'cmsv x00 d1', 'copy', 'call', 'push',
+                 'write_cache', 'write_cache s"k"', 'merkleval', 'shake256', 'get_value', 'div_int', 'div_float', 'nop200'):
+        for wrap in ('%s', 'true %s', '!= m [ ] { %s } !m [ ]', '!= m [ ] { %s } def 0 { !m [ ] } true', 'if { %s }', 'true if ( %s ) { true }',
+                     'push ~ { %s }', 'def 0 { %s }', 'try { %s } except { }'):
+            out.append(('missing-operands', wrap % frag, None))
+    return out
+
+
+def check_macro(case):
+    kind, src, exp = case['kind'], case['src'], case['expected']
+    k, out = _compile(src)
+    if k != 'ok':
+        return [], k
+    if exp is None:
+        return [('c11/source-with-missing-operands-accepted' if kind == 'missing-operands' else 'c11/unencodable-accepted',
+                 'src %r -> %s' % (src, out.hex()))], k
+    if out != exp:
+        sig = {'redefinition': 'c11/mis-assembled/macro-redefinition', 'comment-in-macro-body': 'c11/mis-assembled/comment-in-macro-body'}[kind]
+        return [(sig, 'src %r -> %s expected %s' % (src, out.hex(), exp.hex()))], k
+    return [], k
+
+
+def task_macros(ctx):
+    n = 0
+    for i, (kind, src, exp) in enumerate(macro_cases()):
+        if i % ctx.nshards != ctx.shard:
+            continue
+        case = {'check': 'macro', 'kind': kind, 'src': src, 'expected': exp}
+        fails, k = check_macro(case)
+        n += 1
+        ctx.case(('macro', src), True)
+        ctx.count('macro:%s:%s' % (kind, 'accepted' if k == 'ok' else 'rejected'))
+        for sig, det in fails:
+            ctx.fail('macro', sig, case, det)
+        if kind == 'redefinition' and i % 7 == 0:
+            ctx.sample({'source': src})
+    ctx.exhaustive['macro redefinition orders / comments in macro bodies / instructions without operands in every wrapper'] = n
+
+
 def task_nesting(ctx):
     import itertools
     n = 0
@@ -383,6 +461,7 @@ def task_nesting(ctx):
 
 
 TASKS = {
+    'macros': (task_macros, 2, 2),
     'optimised': (task_optimised, 1, 2),
     'nesting': (task_nesting, 2, 4),
     'canon': (task_canon, 6, 16),
